@@ -229,6 +229,35 @@ func (c *Check) Classify(t *Tables) {
 		}
 		return nil
 	}
+	// a row whose key matches nothing on this run, for the same rule and the same
+	// construct in a function that is now only a caller of o's function: the
+	// construct was moved into a helper of the function the row names
+	byMove := func(rows []tableRow, o *Obligation) *tableRow {
+		op := strings.SplitN(o.Key, "|", 3)
+		if len(op) != 3 || c.P == nil {
+			return nil
+		}
+		for _, mode := range []int{1, 2} {
+			for i := range rows {
+				r := &rows[i]
+				if live[r.Key] {
+					continue
+				}
+				rp := strings.SplitN(r.Key, "|", 3)
+				if len(rp) != 3 || rp[0] != op[0] || rp[2] != op[2] || rp[1] == op[1] {
+					continue
+				}
+				named := r.Property != "*" && (r.Property == c.Prop || strings.Contains(","+r.Property+",", ","+c.Prop+","))
+				if !((mode == 1 && named) || (mode == 2 && r.Property == "*")) {
+					continue
+				}
+				if c.P.onlyHelperOf(op[1], rp[1]) {
+					return r
+				}
+			}
+		}
+		return nil
+	}
 	for _, o := range c.Obs {
 		switch o.Verdict {
 		case Flag:
@@ -255,6 +284,10 @@ func (c *Check) Classify(t *Tables) {
 					o.Verdict, o.Reason, o.ByShape = Exception, r.Reason+" [row "+r.Key+" matched by shape: same code under another name]", true
 				} else if r := byShape(t.Baseline, o); r != nil {
 					o.Verdict, o.Reason, o.ByShape = Baseline, r.Reason+" [row "+r.Key+" matched by shape]", true
+				} else if r := byMove(knownOnly(t.Known), o); r != nil {
+					o.Verdict, o.Reason, o.ByShape = Known, r.What+" [row "+r.Key+": the construct now sits in a helper only that function calls]", true
+				} else if r := byMove(t.Exceptions, o); r != nil {
+					o.Verdict, o.Reason, o.ByShape = Exception, r.Reason+" [row "+r.Key+": the construct now sits in a helper only that function calls]", true
 				}
 			}
 		case Undecided:
@@ -457,6 +490,9 @@ func (c *Check) finish(t *Tables, start time.Time, extra map[string]interface{},
 		rb, _ := json.MarshalIndent(map[string]interface{}{"property": c.Prop, "obligation": o}, "", " ")
 		_ = os.WriteFile(rp, append(rb, '\n'), 0o644)
 		fmt.Printf("  %s %s at %s: %s\n", o.Verdict, o.Key, o.Pos, o.Detail)
+		if os.Getenv("VERIF_SHOW_SHAPES") != "" {
+			fmt.Printf("    shape=%s local=%s pkg=%s\n", o.Shape, o.ShapeLocal, o.ShapePkg)
+		}
 		for _, w := range o.Witness {
 			fmt.Printf("      %s\n", w)
 		}
